@@ -74,7 +74,7 @@ impl<'a> DocGen<'a> {
     pub fn link_url_for(&mut self, block_ref: bool) -> String {
         if !self.p.keys.is_empty() && self.r.chance(4, 5) && (block_ref || self.p.inline_note_links) {
             let k = self.r.pick(&self.p.keys).clone();
-            let rel = liwe::model::Key::from_file_name(&k).to_rel_link_url(&self.p.dir);
+            let rel = crate::oracle::md::rel_url(&liwe::model::Key::from_file_name(&k).to_string(), &self.p.dir);
             let rel = if rel.is_empty() { k.clone() } else { rel };
             if self.r.chance(1, 3) { format!("{}.md", rel) } else { rel }
         } else if self.r.chance(1, 2) {
